@@ -182,6 +182,34 @@ func onePass(p *packages.Package, keep map[string]bool, overlay map[string][]byt
 			}
 		}
 	}
+	// `if gate(…) { return }` at the top of main: the gate of an informational mode is judged as a unit (its effects must be
+	// confined to the paths on which it returns true), so it stays a function
+	if p.Name == "main" {
+		for _, f := range p.Syntax {
+			for _, d := range f.Decls {
+				fd, ok := d.(*ast.FuncDecl)
+				if !ok || fd.Body == nil || fd.Recv != nil || fd.Name.Name != "main" {
+					continue
+				}
+				for _, st := range fd.Body.List {
+					is, ok := st.(*ast.IfStmt)
+					if !ok || is.Init != nil || is.Else != nil || len(is.Body.List) != 1 {
+						continue
+					}
+					if rs, ok := is.Body.List[0].(*ast.ReturnStmt); !ok || len(rs.Results) != 0 {
+						continue
+					}
+					if call, ok := ast.Unparen(is.Cond).(*ast.CallExpr); ok {
+						if id, ok := ast.Unparen(call.Fun).(*ast.Ident); ok {
+							if fo, ok := info.Uses[id].(*types.Func); ok {
+								delete(helpers, fo)
+							}
+						}
+					}
+				}
+			}
+		}
+	}
 	if len(helpers) == 0 {
 		return 0, nil, nil
 	}
